@@ -1018,6 +1018,24 @@ CATALOGUE['C05'] = [
 
 # --------------------------------------------------------------------- C12
 CATALOGUE['C12'] = [
+    V('look-ahead probe one batch too far', 'DT_InSV.py',
+      """        else:
+            end = start + size - 1
+            try:
+                sequence[end + orphan - 1]""",
+      """        else:
+            end = start + size - 1
+            try:
+                sequence[end + orphan + size]""", 'C12.R3'),
+    V('probe of the default window far beyond it', 'DT_InSV.py',
+      """        start = 1
+        end = start + size - 1
+        try:
+            sequence[end + orphan - 1]""",
+      """        start = 1
+        end = start + size - 1
+        try:
+            sequence[end + orphan + 5]""", 'C12.R3'),
     V('emptiness by truth test', 'DT_In.py',
       """        try:
             sequence[0]
